@@ -46,6 +46,15 @@ NOTES.update({
  "w5-C11-m2": "missed at first: the reference encoder never used FLG(0); GS characters early in the message, encoded either through the Mixed table or as FLG(0), added",
  "w5-C11-m3": "NOT caught: the victim symbol is in the property's domain, but the trigger is a previous symbol carrying an ECI on the same Decoder instance; the reference encoder does not emit ECIs (the property lists the five code tables and binary shift)",
 })
+NOTES.update({
+ "w6-C16-m1": "NOT caught: it needs a ragged bool map whose later row is longer than the first; ragged input is outside 'in-range arguments' (the unchanged tree panics on a ragged map whose later row is shorter)",
+ "w6-C17-m1": "missed at first: after a NotFound the matrix was not asked for again; added",
+ "w6-C17-m2": "missed at first: BinaryBitmap.Crop was only given valid rectangles; same-size shifted, negative-origin and outside rectangles added",
+ "w6-C17-m3": "missed at first (the change adds a fast path for an image type the workload never produced): gray YCbCr frames as SubImages with a non-zero origin added",
+})
+NOTES.update({
+ "w6-C18-m2": "missed at first: images for the QR multi reader held one symbol, so no candidate was ever dropped; images with two or three symbols (one sometimes blotted) added; oracle (c) then sees the diagnostic variable change",
+})
 rows=[]
 for d in sorted(glob.glob('/verif/seeded/*/')):
     name=os.path.basename(d.rstrip('/'))
